@@ -22,7 +22,17 @@ type WebSocketFace struct {
 func (f *WebSocketFace) Run() {
 	for f.running.Load() {
 		messageType, pkt, err := f.conn.ReadMessage()
-		if err != nil || messageType != websocket.BinaryMessage {
+		if err != nil {
+			// A read error of a WebSocket connection is permanent: the peer has closed
+			// it, the TCP stream has ended or the framing is broken, and every further
+			// read returns the same error (the library panics after 1000 of them).
+			// The face is down, as for StreamFace.
+			if f.running.Load() {
+				f.onError(err)
+			}
+			break
+		}
+		if messageType != websocket.BinaryMessage {
 			// Ignore invalid message
 			continue
 		}
